@@ -587,6 +587,8 @@ class Hypergraph:
 
         """
         members = set(members)
+        if None in members:
+            raise XGIError("None cannot be a node")
 
         if idx in self._edge.keys():  # check that uid is not present yet
             warn(f"uid {idx} already exists, cannot add edge {members}")
